@@ -1103,6 +1103,14 @@ type tkC09 struct {
 }
 
 func runTokenC09(run *ev.Run, c int) {
+	if n := tierN(run.Tier, 16, 48); c >= n-2 {
+		// the last two cases borrow the ERC20 director (the C09 chains have no EVM): of everything it judges only the
+		// relations of this property are kept - here, that conversions leave the burn tallies alone
+		run.KeyMap = func(key string) (string, bool) { return key, strings.HasPrefix(key, "C09:") }
+		run.Class("borrowed-director", "erc20")
+		runTokenERC20(run, c)
+		return
+	}
 	rng := run.Rng
 	bal := sdk.NewCoins(sdk.NewCoin(rig.BondDenom, toInt(pow2(150))))
 	// every fourth case is born with 130 more tokens (all held by the first account): counts beyond a page of a hundred
@@ -2558,6 +2566,9 @@ func (d *tkC10) observe(br *rig.BlockRecord) {
 		}
 		if tx.Pre != nil {
 			d.accepted(br, tx, tag, tx.Pre.(*tkSnap), tx.Post.(*tkSnap))
+			if run.Property == "C09" {
+				d.burnTallyUntouched(br, tx, tag, tx.Pre.(*tkSnap), tx.Post.(*tkSnap))
+			}
 		}
 		prev = tx.Post.(*tkSnap)
 		failed = nil
@@ -2565,6 +2576,42 @@ func (d *tkC10) observe(br *rig.BlockRecord) {
 	if br.PreEnd != nil {
 		compare(br.PreEnd.(*tkSnap), "before end block")
 	}
+}
+
+// burnTallyUntouched (C09 borrowing this director): "burned amounts are tallied exactly" - a transaction that carries no
+// burn message (a conversion to or from ERC20, a deployment, a hook call) leaves every burn tally as it was; one that
+// does moves the tally of that denomination by exactly the burned amount.
+func (d *tkC10) burnTallyUntouched(br *rig.BlockRecord, tx *rig.TxRecord, tag *tkTag, pre, post *tkSnap) {
+	want := map[string]*big.Int{}
+	for dn, v := range pre.Burn {
+		want[dn] = new(big.Int).Set(v)
+	}
+	for _, m := range tx.Msgs {
+		if b, ok := m.(*v1.MsgBurnToken); ok {
+			if want[b.Coin.Denom] == nil {
+				want[b.Coin.Denom] = new(big.Int)
+			}
+			want[b.Coin.Denom].Add(want[b.Coin.Denom], bi(b.Coin.Amount))
+		}
+	}
+	d.run.Eval(1)
+	for dn, w := range want {
+		g := post.Burn[dn]
+		if g == nil {
+			g = bigZero
+		}
+		if g.Cmp(w) != 0 {
+			d.run.Violation("C09:token:burn-tally:moved-by-a-transaction-that-burned-something-else", map[string]any{"height": br.Height, "msgs": msgBrief(tx.Msgs), "intent": tag.String()},
+				"burn tally of %s is %s after %s, %s before plus the burn messages of the transaction", dn, g, tag.Kind, w)
+		}
+	}
+	for dn, g := range post.Burn {
+		if want[dn] == nil && g.Sign() != 0 {
+			d.run.Violation("C09:token:burn-tally:moved-by-a-transaction-that-burned-something-else", map[string]any{"height": br.Height, "msgs": msgBrief(tx.Msgs), "intent": tag.String()},
+				"burn tally of %s appeared (%s) after %s although nothing of it was burned", dn, g, tag.Kind)
+		}
+	}
+	d.run.Count("conversion-transactions-with-the-burn-tally-compared", 1)
 }
 
 func (d *tkC10) rejected(tx *rig.TxRecord, tag *tkTag) {
